@@ -167,7 +167,7 @@ def _execute(plan, tr):
                     fail("V5", "share_reexport_differs", f"the 2nd/3rd export of one parsed share object (share {x} of a {sp['k']}-of-{sp['n']} {sp['bits']}-bit split) differs from the first")
             if (o.group_threshold, o.group_count, o.exponent, o.share_bit_length) != (sp["k"], sp["n"], sp["exp"], sp["bits"]):
                 fail("V5", "share_header", f"share header {o.group_threshold}-of-{o.group_count} e{o.exponent} {o.share_bit_length} bits differs from the split parameters")
-        expected_n = sp["n"] if sp["k"] > 1 else 1
+        expected_n = sp["n"]  # a k-of-n split hands out n shares, also for k = 1 (every single share then recovers)
         if len(shares) != expected_n or len(set(shares)) != len(shares):
             fail("V1", "share_count", f"{sp['k']}-of-{sp['n']} split produced {len(shares)} shares ({len(set(shares))} distinct)")
         hdr = tuple(shares[0].split()[:2]) + (sp["k"], sp["n"], sp["bits"])
@@ -176,6 +176,26 @@ def _execute(plan, tr):
         tr.probe(f"bits_{sp['bits']}")
     if len(splits) == 2 and splits[0]["hdr"] == splits[1]["hdr"]:
         tr.probe("header_identical_splits")
+    # V5: interpolation identities on the share points of this run: the polynomial through any k points of a k-of-n split takes, at
+    # every further share index, that share's value, and at the x of one of the given points that point's own value
+    for sp in splits[:1]:
+        k_, n_ = sp["spec"]["k"], sp["spec"]["n"]
+        if k_ >= 2:
+            pts = []
+            for t_ in sp["shares"]:
+                o_ = Share.parse(t_)
+                pts.append((o_.group_index, o_.bytes))
+            base_pts = pts[:k_]
+            tr.oracle("V5_interpolation")
+            for (x_, y_) in pts:
+                try:
+                    got_ = ShareSet.interpolate(x_, base_pts)
+                except Exception as e:
+                    got_ = f"{type(e).__name__}: {e}"
+                if got_ != y_:
+                    fail("V5", "interpolation_identity" + ("_at_given_point" if (x_, y_) in base_pts else ""), f"interpolating the first {k_} share points of a {k_}-of-{n_} split at x={x_} "
+                         f"({'one of the given points' if (x_, y_) in base_pts else 'another share index'}) does not give that share's value")
+                    break
     # V5: encrypt/decrypt inverse on the values of this run (real code both ways, then compared with the input)
     for sp in splits[:1]:
         o = Share.parse(sp["shares"][0])
